@@ -1,6 +1,6 @@
 // Verus unit poly: the index-loop functions of math/src/polynom/mod.rs and math/src/utils/mod.rs against an
-// ABSTRACT coefficient structure E (uninterpreted +, -, *; nothing is assumed about them - no ring axiom is
-// used, so the result holds for base and extension fields alike, and for every representation).
+// ABSTRACT coefficient structure E (uninterpreted +, -, *, /; for every function except `div` nothing is assumed about
+// them - no ring axiom is used, so the result holds for base and extension fields alike, and for every representation).
 // Decided, for every input length and every coefficient value:
 //   add / sub      result has max(len a, len b) coefficients, coefficient i is coef(a,i) (+|-) coef(b,i), a missing
 //                  coefficient counting as ZERO
@@ -10,6 +10,7 @@
 //   mul_by_scalar  coefficient i is p[i] * k
 //   degree_of      the index of the last non-ZERO coefficient, 0 when there is none
 //   fill_power_series   result[i] == start * base^i (left-nested products)
+//   div            see the comment above `div` (uses five algebraic laws as assumptions; all the other functions use none)
 // Not decided here: that E's operations are those of a field (C07 / C08 decide that for the real types); the
 // functions written with iterator adapters (eval, interpolate, syn_div*, batch inversion): bounded stand-in only.
 use vstd::prelude::*;
@@ -174,6 +175,150 @@ pub fn fill_power_series(result: &mut [E], base: E, start: E)
         final(result).len() == old(result).len(),
         forall|t: int| 0 <= t < old(result).len() ==> final(result)@[t] == pw(start, base, t),
 {
+    /*@@body*/
+}
+
+
+// ------------------------------------------------------------------------------------------------------------------
+// polynom::div - the ONLY function of this unit that uses algebraic laws of E. The laws are the five axioms below
+// (additive monoid laws, x - y + y == x, y * (x / y) == x for y != 0): assumptions of this proof, listed in trusted_base;
+// that the real field types satisfy them is what C07 / C08 decide. No commutativity is needed.
+// Decided, for every dividend a (at least one coefficient), every non-zero divisor b with deg b <= deg a, every coefficient
+// value: the result q has deg a - deg b + 1 coefficients and there is a remainder rem, with coefficients only below
+// deg b, such that  a[k] == rem[k] + sum_t b[k - t] * q[t]  for every k <= deg a  (quotient * divisor + remainder ==
+// dividend, coefficient by coefficient; the sum is qsum, right-nested in increasing t).
+#[verifier::external_body]
+pub proof fn ax_add_zero_l(x: E) ensures add_of(E::ZERO, x) == x {}
+#[verifier::external_body]
+pub proof fn ax_add_zero_r(x: E) ensures add_of(x, E::ZERO) == x {}
+#[verifier::external_body]
+pub proof fn ax_add_assoc(x: E, y: E, z: E) ensures add_of(add_of(x, y), z) == add_of(x, add_of(y, z)) {}
+#[verifier::external_body]
+pub proof fn ax_sub_add(x: E, y: E) ensures add_of(sub_of(x, y), y) == x {}
+#[verifier::external_body]
+pub proof fn ax_div_mul(x: E, y: E) requires y != E::ZERO ensures mul_of(y, div_of(x, y)) == x {}
+
+pub uninterp spec fn div_of(a: E, b: E) -> E;
+impl DivSpecImpl<E> for E {
+    open spec fn obeys_div_spec() -> bool { true }
+    open spec fn div_req(self, rhs: E) -> bool { true }
+    open spec fn div_spec(self, rhs: E) -> E { div_of(self, rhs) }
+}
+impl core::ops::Div for E { type Output = Self; #[verifier::external_body] fn div(self, rhs: Self) -> Self { unimplemented!() } }
+// `x -= y` is `x = x - y`
+impl SubAssignSpecImpl<E> for E {
+    open spec fn obeys_sub_assign_spec() -> bool { true }
+    open spec fn sub_assign_req(&self, rhs: E) -> bool { true }
+    open spec fn sub_assign_spec(&self, rhs: E) -> &E { &sub_of(*self, rhs) }
+}
+impl core::ops::SubAssign for E { #[verifier::external_body] fn sub_assign(&mut self, rhs: Self) { unimplemented!() } }
+pub assume_specification<T: Clone> [<[T]>::to_vec] (s: &[T]) -> (r: Vec<T>)
+    ensures r@ == s@;
+
+// d is the degree degree_of reports for p
+pub open spec fn is_deg(p: Seq<E>, d: int) -> bool {
+    &&& 0 <= d
+    &&& (forall|t: int| 0 <= t < p.len() ==> p[t] == E::ZERO) ==> d == 0
+    &&& (exists|t: int| 0 <= t < p.len() && p[t] != E::ZERO) ==> (d < p.len() && p[d] != E::ZERO
+            && forall|t: int| d < t < p.len() ==> p[t] == E::ZERO)
+}
+
+pub open spec fn term(q: Seq<E>, b: Seq<E>, db: int, k: int, t: int) -> E {
+    if 0 <= k - t <= db { mul_of(b[k - t], q[t]) } else { E::ZERO }
+}
+// coefficient k of q * b restricted to q[lo ..= m], right-nested in increasing t
+pub open spec fn qsum(q: Seq<E>, b: Seq<E>, db: int, k: int, lo: int, m: int) -> E
+    decreases m - lo + 1
+{
+    if lo > m { E::ZERO } else { add_of(term(q, b, db, k, lo), qsum(q, b, db, k, lo + 1, m)) }
+}
+pub open spec fn div_post(a: Seq<E>, b: Seq<E>, q: Seq<E>, da: int, db: int, rem: Seq<E>) -> bool {
+    &&& is_deg(a, da) && is_deg(b, db) && q.len() == da - db + 1 && rem.len() == a.len()
+    &&& forall|k: int| 0 <= k <= da ==> #[trigger] a[k] == add_of(if k < db { rem[k] } else { E::ZERO }, qsum(q, b, db, k, 0, q.len() - 1))
+}
+
+proof fn lemma_qsum_frame(q1: Seq<E>, q2: Seq<E>, b: Seq<E>, db: int, k: int, lo: int, m: int)
+    requires forall|t: int| lo <= t <= m ==> q1[t] == q2[t]
+    ensures qsum(q1, b, db, k, lo, m) == qsum(q2, b, db, k, lo, m)
+    decreases m - lo + 1
+{
+    if lo <= m { lemma_qsum_frame(q1, q2, b, db, k, lo + 1, m); }
+}
+
+// one step of the long division, for coefficient k: the invariant moves from nx = i + 1 to nx = i
+proof fn lemma_div_step(a0k: E, a1k: E, ank: E, quot: E, a1top: E, r1: Seq<E>, r2: Seq<E>, b: Seq<E>, db: int, k: int, i: int, m: int)
+    requires
+        0 <= i <= m, 0 <= db < b.len(), 0 <= k, r1.len() == m + 1, r2 == r1.update(i, quot),
+        b[db] != E::ZERO, quot == div_of(a1top, b[db]),
+        a0k == add_of(if k < i + 1 + db { a1k } else { E::ZERO }, qsum(r1, b, db, k, i + 1, m)),
+        k == i + db ==> a1k == a1top,
+        ank == (if i <= k < i + db { sub_of(a1k, mul_of(b[k - i], quot)) } else { a1k }),
+    ensures
+        a0k == add_of(if k < i + db { ank } else { E::ZERO }, qsum(r2, b, db, k, i, m)),
+{
+    let s_old = qsum(r1, b, db, k, i + 1, m);
+    lemma_qsum_frame(r1, r2, b, db, k, i + 1, m);
+    let tm = term(r2, b, db, k, i);
+    assert(qsum(r2, b, db, k, i, m) == add_of(tm, s_old));
+    if k < i {
+        ax_add_zero_l(s_old);
+    } else if k < i + db {
+        ax_sub_add(a1k, tm);
+        ax_add_assoc(ank, tm, s_old);
+    } else if k == i + db {
+        ax_div_mul(a1top, b[db]);
+        ax_add_zero_l(add_of(tm, s_old));
+    } else {
+        ax_add_zero_l(s_old);
+        ax_add_zero_l(add_of(tm, s_old));
+    }
+}
+
+//@@ source math/src/polynom/mod.rs
+//@@ extract anchor="pub fn div<E>(a: &[E], b: &[E]) -> Vec<E>"
+//@@ rewrite "!b.is_empty()" => "b.len() != 0"
+//@@ rewrite "for i in (0..result.len()).rev() {" => "let result_len = result.len(); for i in (0..result_len).rev() {"
+//@@ before "assert!(apos >= bpos"
+//@@|    proof { assert(is_deg(a0, apos as int)); assert(is_deg(b@, bpos as int)); }
+//@@ itername 1 it
+//@@ itername 2 jt
+//@@ before "let mut result"
+//@@|    let ghost apos0 = apos as int;
+//@@|    let ghost m = apos0 - bpos as int;
+//@@|    proof { assert forall|k: int| 0 <= k <= apos0 implies #[trigger] a0[k] == add_of(a0[k], E::ZERO) by { ax_add_zero_r(a0[k]); } }
+//@@ loop 1
+//@@|        invariant
+//@@|            a@.len() == a0.len(), result.len() == m + 1, 0 <= m, m + bpos == apos0, apos0 < a0.len(), bpos < b.len(), b@[bpos as int] != E::ZERO,
+//@@|            it.index@ <= m + 1, result_len == m + 1,
+//@@|            it.index@ <= m ==> apos == m - it.index@ + bpos,
+//@@|            forall|k: int| 0 <= k <= apos0 ==> #[trigger] a0[k] == add_of(if k < m + 1 - it.index@ + bpos { a@[k] } else { E::ZERO },
+//@@|                qsum(result@, b@, bpos as int, k, m + 1 - it.index@, m)),
+//@@ loopstart 1
+//@@|        let ghost a1 = a@;
+//@@|        let ghost r1 = result@;
+//@@ loop 2
+//@@|            invariant
+//@@|                a@.len() == a0.len(), i + bpos == apos, apos < a0.len(), bpos < b.len(), jt.index@ <= bpos, a1.len() == a0.len(),
+//@@|                forall|k: int| 0 <= k < a0.len() ==> #[trigger] a@[k] ==
+//@@|                    (if i + bpos - jt.index@ <= k < i + bpos { sub_of(a1[k], mul_of(b@[k - i], quot)) } else { a1[k] }),
+//@@ loopend 1
+//@@|        proof {
+//@@|            assert forall|k: int| 0 <= k <= apos0 implies #[trigger] a0[k] == add_of(if k < i + bpos { a@[k] } else { E::ZERO },
+//@@|                qsum(result@, b@, bpos as int, k, i as int, m)) by {
+//@@|                lemma_div_step(a0[k], a1[k], a@[k], quot, a1[i + bpos], r1, result@, b@, bpos as int, k, i as int, m);
+//@@|            }
+//@@|        }
+//@@ tail
+//@@|    proof { assert(div_post(a0, b@, result@, apos0, bpos as int, a@)); }
+pub fn div(a: &[E], b: &[E]) -> (r: Vec<E>)
+    requires
+        a.len() >= 1,
+        exists|t: int| 0 <= t < b.len() && b@[t] != E::ZERO,
+        forall|da: int, db: int| is_deg(a@, da) && is_deg(b@, db) ==> da >= db,
+    ensures
+        exists|da: int, db: int, rem: Seq<E>| #[trigger] div_post(a@, b@, r@, da, db, rem),
+{
+    let ghost a0 = a@;
     /*@@body*/
 }
 
